@@ -5,6 +5,11 @@ V = os.path.dirname(os.path.dirname(os.path.abspath(__file__)))
 
 # id -> dict(level, engine, technique, text, note, design)
 CLAIMED = {
+ "C07": dict(level="exploration", engine="vsh-virtual",
+   technique="identity monitor: yash_quote output embedded in scripts run by the complete shell (probe receives the field); state-snapshot monitor: every listing evaluated by a fresh shell and the Env/kernel snapshot facet it covers compared with the original",
+   text="A: every string of length <= 3 (quick) / 4 over 31 characters (all shell-special characters, quotes, newline, tab, NBSP, U+3000, a, /) and 2*10^4 / 6*10^5 random strings to length 40, as command argument, assignment value and declaration-utility operand, with files that unprotected patterns would match and HOME set. B: 3000 / 120000 random states (scalars, arrays, attributes, odd variable/alias/function names, grammar-generated function bodies, read-only functions, 11 options, traps with arbitrary action text, umask) x 11 listings (alias, export -p, readonly -p, typeset -p, typeset -fp, set, set +o, trap, trap -p, umask, umask -S).",
+   note="Trusted: single-quote embedding in the defining scripts; vsh::snapshot facets. `alias` output is split with the shell's lexer and each word handed to `alias --`; umask output handed to `umask`. Known finding: `function` keyword printed for quoted function names (see known_findings.json).",
+   design="5/C07"),
  "C06": dict(level="exploration", engine="lib-inproc",
    technique="totality monitor (panic hook, line-counting Input for read-ahead, CPU-time watchdog, deep nesting on an 8 MiB stack) and parse-print-parse round-trip oracle on the real Lexer/Parser and Display implementations",
    text="39 deep-nesting texts (13 constructs x depth 50/100/200); the 100 scripted-test files and each script embedded in them; 6*10^4 (quick) / 2*10^6 (thorough) texts: programs from a text-level grammar covering every construct (assignments incl. arrays, redirections in every position incl. before reserved-word command names, all compound commands, function definitions, all case terminators, all word units and parameter modifiers, here-documents, comments, continuations), single/double mutations of them and byte/Unicode soup. Each command line parsed without here-documents is printed, re-parsed and compared with locations erased; printing is checked idempotent.",
